@@ -246,6 +246,7 @@ fn first_present_response<'a>(op: &'a Value) -> Option<&'a Value> {
 struct Case { label: String, doc: Value, features: Vec<String>, in_d: bool }
 
 fn gen_cases(prop: &str, tier: &str, seed: u64, rep: &mut Report) -> Vec<Case> {
+    if let Some(c) = crate::emitprops::only_case() { return vec![Case { label: c.label, doc: c.doc, features: c.features, in_d: true }]; }
     let thorough = tier == "thorough";
     let mut cases = vec![];
     // corpus: the bundled specs and the hand-written harness specs
@@ -417,7 +418,7 @@ pub fn run(prop: &str, tier: &str, seed: u64, out: &str) {
     rep.write(out);
 }
 
-fn case_text(c: &Case) -> String { format!("(case {} (doc {}))", c.label, quote(&serde_json::to_string(&c.doc).unwrap_or_default().chars().take(6000).collect::<String>())) }
+fn case_text(c: &Case) -> String { format!("(case {} (doc {}))", c.label, quote(&serde_json::to_string(&c.doc).unwrap_or_default().chars().take(60000).collect::<String>())) }
 
 fn first_diff(a: &str, b: &str) -> (String, String) {
     let x: Vec<char> = a.chars().collect();
